@@ -4,6 +4,7 @@ package verifsim
 
 import (
 	"context"
+	"runtime"
 	"time"
 )
 
@@ -55,6 +56,25 @@ type SimContext struct {
 	PanicAfter int64
 	Runaway    bool
 
+	// The work clock: the rewriter also inserts Work() into the loops and
+	// functions of the packages that implement values and built-ins, so the
+	// cost of ONE instruction is visible (one tick can hide a built-in that
+	// walks a structure of any size).
+	Work        int64 // work units of this run
+	workInInstr int64 // work units since the last tick
+	MaxInInstr  int64 // the most work seen inside one instruction
+	// HeavyFireAt > 0: the cancellation fires in the middle of an
+	// instruction, when that instruction has done this many work units (a
+	// deadline that expires while a long built-in is running).
+	HeavyFireAt int64
+	FiredInWork bool
+	WorkAfter   int64 // work units after the cancellation
+	// WorkCapAfter > 0: the work unit that comes more than WorkCapAfter units
+	// after the cancellation panics with RunawayWorkPanic.
+	WorkCapAfter int64
+	RunawayWork  bool
+	RunawayStack []string // innermost first
+
 	// Mutual-exclusion monitor (concurrency simulation only).
 	ownerTask, ownerOp int
 	closed             [16][2]int
@@ -92,6 +112,7 @@ func (c *SimContext) Rearm(cancelAt int64) {
 		c.err = nil
 	}
 	c.Clock, c.Ticks, c.Polls, c.PollsAfter, c.TicksAfter, c.FiredAt = 0, 0, 0, 0, 0, 0
+	c.Work, c.workInInstr, c.MaxInInstr, c.WorkAfter, c.FiredInWork, c.RunawayWork = 0, 0, 0, 0, false, false
 	c.CancelAt = cancelAt
 	c.HitCap = false
 	c.Runaway = false
@@ -190,8 +211,57 @@ func (c *SimContext) Advance(n int64) {
 	}
 }
 
+// RunawayWorkPanic is the value Work panics with (see WorkCapAfter).
+const RunawayWorkPanic = "verifsim: one instruction is still working long after the context was cancelled"
+
+// TotalWork counts every work unit of the process (evidence).
+var TotalWork int64
+
+// Work is called at the top of every loop iteration and function of the
+// value and built-in packages.
+//
+//go:norace
+func Work() {
+	TotalWork++
+	c := current()
+	if c == nil {
+		return
+	}
+	c.Work++
+	c.workInInstr++
+	if c.workInInstr > c.MaxInInstr {
+		c.MaxInInstr = c.workInInstr
+	}
+	if c.fired {
+		c.WorkAfter++
+		if c.WorkCapAfter > 0 && c.WorkAfter > c.WorkCapAfter {
+			c.RunawayWork = true
+			// where is it? (the innermost frames name the walk that does
+			// not end)
+			var pcs [64]uintptr
+			n := runtime.Callers(2, pcs[:])
+			frames := runtime.CallersFrames(pcs[:n])
+			c.RunawayStack = c.RunawayStack[:0]
+			for {
+				f, more := frames.Next()
+				c.RunawayStack = append(c.RunawayStack, f.Function)
+				if !more {
+					break
+				}
+			}
+			panic(RunawayWorkPanic)
+		}
+		return
+	}
+	if c.HeavyFireAt > 0 && c.workInInstr == c.HeavyFireAt {
+		c.FiredInWork = true
+		c.fire()
+	}
+}
+
 //go:norace
 func (c *SimContext) tick() {
+	c.workInInstr = 0
 	if c.fired {
 		c.TicksAfter++
 		if c.PanicAfter > 0 && c.TicksAfter > c.PanicAfter {
@@ -278,18 +348,27 @@ func (c *SimContext) Err() error {
 	return c.err
 }
 
-var processStart = time.Now()
+// peekNow reads the simulated clock without counting as a reading.
+//
+//go:norace
+func peekNow() time.Time {
+	var ticks int64
+	if c := current(); c != nil {
+		ticks = c.Clock
+	}
+	return simEpoch.Add(time.Duration(simOffset) + time.Duration(ticks)*time.Microsecond)
+}
 
 // Deadline implements context.Context.
 func (c *SimContext) Deadline() (time.Time, bool) {
 	if c.FarDeadline {
-		return processStart.Add(time.Hour), true
+		return simEpoch.Add(time.Hour), true
 	}
 	if c.NearDeadline {
 		if c.fired {
-			return time.Now().Add(-time.Microsecond), true
+			return peekNow().Add(-time.Microsecond), true
 		}
-		return time.Now().Add(500 * time.Microsecond), true
+		return peekNow().Add(500 * time.Microsecond), true
 	}
 	return time.Time{}, false
 }
